@@ -8,7 +8,7 @@ generated states. A read of a temporary (h_tmpN / ret_val) that was never writte
 from .. import run, gen, progcheck
 from ..cref import walk
 
-BASE = gen.SAFE_CORE | {"hyb_inc", "hyb_call", "hyb_stmtexpr", "pred"}
+BASE = gen.SAFE_CORE | {"hyb_inc", "hyb_call", "hyb_stmtexpr", "pred", "unbraced"}
 # classes of listed findings (generated again when the witness stops failing)
 OPTIONAL = {"hyb_unused_stmt", "hyb_in_cond_arm"}
 
@@ -42,6 +42,10 @@ def _classify(stmts):
             out.append("hybrid in call argument")
         if x and x[0] == "for" and x[3] is not None and x[3][0] == "post":
             out.append("hybrid as loop step")
+        if x and x[0] == "for" and x[4][0] == "expr" and x[4][1][0] in ("post", "stmtexpr", "call"):
+            out.append("unbraced hybrid statement as loop body")
+        if x and x[0] == "if" and any(a is not None and a[0] == "expr" and a[1][0] in ("post", "stmtexpr", "call") for a in x[2:4]):
+            out.append("unbraced hybrid statement as if/else arm")
     return set(out)
 
 
